@@ -1,5 +1,6 @@
 import Exetera.Props.C17
 import Exetera.Lemmas.GenKernelsJournal
+import Exetera.Lemmas.GenKernelsJournalMerge
 /-!
   C17 over the TRANSLATED journalling kernels (`Gen/Kernels.lean`, regenerated from operations.py by tools/translate_njit.py on
   every run).
@@ -59,5 +60,78 @@ theorem gen_compare_rows_to_keep (ok nk o n : List Int) (ho : o.length = ok.leng
 
 example : compare_rows_for_journalling.run (indices [4, 4, 6] [4, 8]).1 (indices [4, 4, 6] [4, 8]).2 [7, 7, 9] [7, 5]
     [false, false, false] = .ok [false, false, true] := by rfl
+
+/-! ## merge_journalled_entries / merge_indexed_journalled_entries_count
+
+  Transfer form again: the model reads `new_src[new_map[i]]` through `getI` (a negative subscript wraps around once, as numpy does),
+  the translation makes a negative subscript an error; hence the hypothesis that every KEPT slot has a non-negative `new_map` entry
+  (on the specified maps a kept slot always has a snapshot row: `hnew_fNew`).  The model's inner `while` runs on its own
+  per-iteration fuel, the translated kernel on one global fuel: any fuel that covers the destination (resp. the old offsets) will do. -/
+
+theorem gen_merge_entries_ok (om nm : List Int) (tk : List Bool) (oldSrc newSrc : List Int) (cap fuel : Nat) (r : List Int)
+    (hfuel : cap ≤ fuel) (hnn : ∀ (i : Nat) (n : Int), tk[i]? = some true → nm[i]? = some n → 0 ≤ n)
+    (h : mergeEntries om nm tk oldSrc newSrc cap = .ok r) :
+    merge_journalled_entries.run om nm tk oldSrc newSrc (List.replicate cap 0) fuel = .ok r :=
+  merge_journalled_entries_ok om nm tk oldSrc newSrc cap fuel r hfuel hnn h
+
+theorem gen_merge_indexed_count_ok (om nm : List Int) (tk : List Bool) (oi ni : List Nat) (fuel r : Nat)
+    (hfuel : oi.length ≤ fuel) (hnn : ∀ (i : Nat) (n : Int), tk[i]? = some true → nm[i]? = some n → 0 ≤ n)
+    (h : mergeIndexedCount om nm tk oi ni = .ok r) :
+    merge_indexed_journalled_entries_count.run om nm tk (ints oi) (ints ni) fuel = .ok (r : Int) :=
+  merge_indexed_journalled_entries_count_ok om nm tk oi ni fuel r hfuel hnn h
+
+example : mergeEntries [1, 2, -1] [0, -1, 1] [true, false, true] [7, 7, 9] [7, 5] 5 = .ok [7, 7, 7, 9, 5] := by rfl
+example : merge_journalled_entries.run [1, 2, -1] [0, -1, 1] [true, false, true] [7, 7, 9] [7, 5] [0, 0, 0, 0, 0] 5
+    = .ok [7, 7, 7, 9, 5] := by rfl
+example : merge_indexed_journalled_entries_count.run [1, 2, -1] [0, -1, 1] [true, false, true] [0, 1, 2, 2] [0, 1, 2] 4
+    = .ok 4 := by rfl
+
+/-- on the specified maps every kept slot has a snapshot row -/
+theorem kept_slots_nonneg (ok nk : List Int) (d : Nat → Nat → Bool) (i : Nat) (n : Int)
+    (hk : (toKeep ok nk d)[i]? = some true) (hn : (indices ok nk).2[i]? = some n) : 0 ≤ n := by
+  rw [toKeep_eq_map] at hk
+  rw [indices_eq_map] at hn
+  simp only [List.getElem?_map] at hk hn
+  cases hkey : (keyUnion ok nk)[i]? with
+  | none => simp [hkey] at hk
+  | some k =>
+    simp only [hkey, Option.map_some, Option.some.injEq] at hk hn
+    subst hn
+    exact (hnew_fNew d nk.length rfl k hk).1
+
+/-- the statement of `C17.merge_eq_spec` (numeric field) for the TRANSLATED `merge_journalled_entries`: on the specified maps and
+    flags, with a zero-filled destination of the size `journal_table` allocates, it returns normally (no subscript out of range or
+    negative, the inner loop finishes) and the destination is exactly the field read along the specification's plan -/
+theorem gen_merge_entries_spec {ok nk : List Int} (hso : ok.Pairwise (· ≤ ·)) (hsn : nk.Pairwise (· < ·)) (d : Nat → Nat → Bool)
+    (o n : List Int) (ho : o.length = ok.length) (hn : n.length = nk.length) (fuel : Nat)
+    (hfuel : ok.length + (toKeep ok nk d).count true ≤ fuel) :
+    merge_journalled_entries.run (indices ok nk).1 (indices ok nk).2 (toKeep ok nk d) o n
+      (List.replicate (ok.length + (toKeep ok nk d).count true) 0) fuel = .ok (column (plan ok nk d) o n) := by
+  have h := C17.merge_eq_spec hso hsn d (Col.num o n) ⟨ho, hn⟩
+  simp only [Col.enc, mergeCol, Col.out] at h
+  cases hm : mergeEntries (indices ok nk).1 (indices ok nk).2 (toKeep ok nk d) o n (ok.length + (toKeep ok nk d).count true) with
+  | error e => rw [hm] at h; simp at h
+  | ok r =>
+    rw [hm] at h
+    simp only [Except.ok.injEq, OutCol.num.injEq] at h
+    subst h
+    exact merge_journalled_entries_ok _ _ _ _ _ _ fuel _ hfuel (kept_slots_nonneg ok nk d) hm
+
+/-- the indexed-string counterpart: the TRANSLATED `merge_indexed_journalled_entries_count`, on the specified maps and the offset
+    arrays of the two encoded columns, returns the number of bytes of the field read along the specification's plan -/
+theorem gen_merge_indexed_count_spec {ok nk : List Int} (hso : ok.Pairwise (· ≤ ·)) (hsn : nk.Pairwise (· < ·))
+    (d : Nat → Nat → Bool) (o n : List (List Int)) (ho : o.length = ok.length) (hn : n.length = nk.length) (fuel : Nat)
+    (hfuel : (encode o).1.length ≤ fuel) :
+    merge_indexed_journalled_entries_count.run (indices ok nk).1 (indices ok nk).2 (toKeep ok nk d) (ints (encode o).1)
+      (ints (encode n).1) fuel = .ok (((column (plan ok nk d) o n).flatten.length : Nat) : Int) := by
+  have hplan := (plan_facts d hso hsn).1
+  have h := mergeIndexedCount_plan (keyUnion ok nk) (fOld ok) (fNew nk) (gKeep ok nk d) o n
+    (fun k _ => hold_fOld o.length ho k) (fun k _ hk => hnew_fNew d n.length hn k hk)
+  rw [hplan, ← toKeep_eq_map, ← show (indices ok nk).1 = (keyUnion ok nk).map (fOld ok) from rfl,
+    ← show (indices ok nk).2 = (keyUnion ok nk).map (fNew nk) from rfl] at h
+  exact merge_indexed_journalled_entries_count_ok _ _ _ _ _ fuel _ hfuel (kept_slots_nonneg ok nk d) h
+
+example : merge_journalled_entries.run (indices [4, 4, 6] [4, 8]).1 (indices [4, 4, 6] [4, 8]).2
+    (toKeep [4, 4, 6] [4, 8] (fun _ _ => true)) [7, 7, 9] [7, 5] [0, 0, 0, 0, 0] 5 = .ok [7, 7, 7, 9, 5] := by rfl
 
 end Exetera.Props.C17Gen
